@@ -1,3 +1,8 @@
 import Minidyn.Model.Basic
 import Minidyn.Model.Num
 import Minidyn.Model.Value
+import Minidyn.Model.Lexer
+import Minidyn.Model.Parser
+import Minidyn.Model.Env
+import Minidyn.Model.Eval
+import Minidyn.Model.Interp
